@@ -18,6 +18,10 @@ def run(item):
     ret, out, oid = [], [], []
     ids = {}
     for c in item["h"]:
+        if c["p"] == 0:         # an intermediate solve-time generation of the partition constraints
+            part.add_partition_constraints()
+            out.append("ok"); ret.append([]); oid.append(0)
+            continue
         try:
             b = part.get_block(base[c["p"] - 1], c["k"] - 1)
             out.append("ok")
